@@ -130,10 +130,19 @@ impl Prop for SpeedLaw {
         // s = F1 / (k + 0.5) and its neighbouring doubles put F1/s on (or one ulp beside) a rounding tie
         let f1: f64 = params.iter().map(|(m, _)| m.round().max(1.0)).sum();
         let mut speeds: Vec<f64> = (0..4)
-            .map(|_| match t.weighted(&[6, 1, 1, 4]) {
+            .map(|_| match t.weighted(&[6, 1, 1, 4, 2]) {
                 0 => t.log_uniform(0.1, 50.0),
                 1 => *t.pick(&[1.0, 0.1, 50.0, 0.5, 2.0, 4.0, 0.25]),
                 2 => 1.0 + t.uniform(-1e-3, 1e-3),
+                4 => {
+                    // the rounding tie that coincides with the FLOOR: F1/s = (number of states) + 0.5,
+                    // or one state beside it (and the neighbouring doubles of that speed)
+                    let k = (n as f64 + *t.pick(&[0.0, 0.0, 0.0, -1.0, 1.0])).max(0.0);
+                    let s = f1 / (k + 0.5);
+                    let nudge = t.range(-2, 2);
+                    let s = f64::from_bits((s.to_bits() as i64 + nudge) as u64);
+                    s.clamp(0.1, 50.0)
+                }
                 _ => {
                     let lo = (f1 / 50.0).floor().max(1.0);
                     let hi = (f1 / 0.1).floor().max(lo);
